@@ -410,3 +410,13 @@ Definition model_required : list (text * text) :=
 (* which interface literal selects which class in _ensure_lcd_globals ([] = the else branch) *)
 Definition model_interface_class : list (text * text) :=
   [ (iface_i2c_text, class_text LLiquidCrystalI2C); ([], class_text LLiquidCrystal) ].
+
+(* ---------------------------------------------------------------- the stitched sketch (library part) *)
+(* "Stitch sections": HEADER, the #include lines, helper snippets, globals_, functions, then
+   "void setup() {" with setup_lines.  The lines that concern library objects, in textual order
+   up to the end of the pass-1 part of setup() *)
+Definition include_line (h : header) : text := [35; 105; 110; 99; 108; 117; 100; 101; 32; 60] (* "#include <" *) ++ header_text h ++ [62] (* ">" *).
+Definition setup_start : text := [118; 111; 105; 100; 32; 115; 101; 116; 117; 112; 40; 41; 32; 123] (* "void setup() {" *).
+
+Definition lib_sketch (p : dprog) : list text :=
+  map include_line (headers (erase_prog p)) ++ lib_globals p ++ [setup_start] ++ lib_init p.
